@@ -291,6 +291,9 @@ func (d *Decls) StrLit(s string) Term {
 // StrLitFacts: lengths, bytes and pairwise distinctness of the literals used.
 func (d *Decls) StrLitFacts() []Term {
 	var out []Term
+	if d.seen["utf8_count"] {
+		out = append(out, eq(app("utf8_count", "str_empty"), "0"))
+	}
 	var names []string
 	var lits []string
 	for s := range d.strlits {
@@ -301,6 +304,17 @@ func (d *Decls) StrLitFacts() []Term {
 		c := d.strlits[s]
 		names = append(names, c)
 		out = append(out, eq(app("str_len", c), intLit(int64(len(s)))))
+		if d.seen["utf8_count"] {
+			ascii := true
+			for i := 0; i < len(s); i++ {
+				if s[i] >= 0x80 {
+					ascii = false
+				}
+			}
+			if ascii {
+				out = append(out, eq(app("utf8_count", c), intLit(int64(len(s)))))
+			}
+		}
 		if len(s) <= 16 {
 			for i := 0; i < len(s); i++ {
 				out = append(out, eq(app("str_at", c, intLit(int64(i))), intLit(int64(s[i]))))
